@@ -5,6 +5,7 @@ CONSTANTS
   HashCheck = FALSE
   Collect = TRUE
   FollowUps = {"none"}
+  Configs = {"bf+bdf"}
   Emit = FALSE
 SPECIFICATION Spec
 INVARIANTS TypeOK GetBlockSound
